@@ -339,6 +339,8 @@ def catalogue(g):
     add("method.variadic-iface-elem", "Vie(ss ...fmt.Stringer) string")
     # the last fixed parameter has exactly the type of the variadic slice: with no variadic values it is the trailing recorded argument
     add("method.variadic-after-same-slice", ["J(base []string, more ...string)", "J2(a int, b []int, more ...int) error", "J3(b []any, more ...any) int"])
+    # a result-less variadic method rendered after a sibling whose call expression would also compile in its body (the logger pair), and after one without parameters
+    add("method.variadic-void-after-sibling", ["Debug(msg string)", "Debugf(msg string, args ...any)", "Flush()", "Log(xs ...int)"])
     add("method.variadic-2-results", "V2(a int, xs ...string) (int, error)")
     add("method.variadic-3-results", "V3(xs ...int) (a int, b string, err error)")
     add("method.embedded-local", "Base1")
